@@ -59,6 +59,12 @@ def r1_literal_to_string(text):
 
 
 def apply(text, rules, what, log):
+    if 'R1S' in rules:
+        text, n = r1s_format_concat(text)
+        if n == 0:
+            raise ExtractError('rule R1S enabled for %s but it matched nothing (anchor lost)' % what)
+        log['rewrites'].append({'rule': 'R1S', 'item': what, 'count': n})
+        rules = [r for r in rules if r != 'R1S']
     text, n = r1_format(text)
     text, n2 = r1_literal_to_string(text)
     n += n2
@@ -257,6 +263,50 @@ def r0_crate_paths(text):
         n += 1
     out.append(text[last:])
     return ''.join(out), n
+
+
+def r1s_format_concat(text):
+    """structured form of R1 for the format strings whose text matters: `format!("{0}:{1}:{2}", a, b, c)` with only positional
+    `{N}` placeholders -> nested `vx_cat(..)` calls (concatenation of the Display text of the pieces, in order)"""
+    key = '::alloc::__export::must_use('
+    n = 0
+    pos = 0
+    while True:
+        m = mask(text)
+        j = m.find(key, pos)
+        if j < 0:
+            break
+        p = j + len(key) - 1
+        q = match_close(m, p)
+        inner = text[p + 1:q]
+        mo = re.search(r'format_args!\(\s*"((?:[^"\\]|\\.)*)"\s*((?:,.*)?)\)\s*\)\s*\}?\s*$', inner, re.S)
+        if not mo:
+            pos = q
+            continue
+        fmt, argtxt = mo.group(1), mo.group(2)
+        if not re.fullmatch(r'(?:[^{}]|\{\d+\})*', fmt) or '{' not in fmt:
+            pos = q
+            continue
+        am = mask(argtxt)
+        cuts = _split_top_commas(am, 0, len(am)) + [len(am)]
+        args = [argtxt[cuts[i] + 1:cuts[i + 1]].strip() for i in range(len(cuts) - 1)]
+        args = [a for a in args if a]
+        pieces = []
+        for tok in re.findall(r'\{\d+\}|[^{}]+', fmt):
+            if tok.startswith('{'):
+                k = int(tok[1:-1])
+                if k >= len(args):
+                    raise ExtractError('R1S: placeholder {%d} without argument' % k)
+                pieces.append(args[k])
+            else:
+                pieces.append('"%s"' % tok)
+        expr = pieces[0] if len(pieces) > 1 else 'vx_cat(%s, "")' % pieces[0]
+        for pc in pieces[1:]:
+            expr = 'vx_cat(%s, %s)' % (expr, pc)
+        text = text[:j] + expr + text[q + 1:]
+        n += 1
+        pos = j + len(expr)
+    return text, n
 
 
 def r1_format(text):
